@@ -40,7 +40,8 @@ ResolveRef(s) == Resolve(s, Data.refsplits[s])
 
 \* ------------------------------------------------------------------ dimensionality (exact rationals)
 RECURSIVE ExpandDimPairs(_), ExpandDim1(_)
-ExpandDim1(d) == IF d \in DOMAIN DDims THEN ExpandDimPairs(DDims[d]) ELSE Single(d, One)
+ExpandDim1(d) == IF d = "_u005B_u005D" THEN Empty              \* "[]": the dimensionless marker
+                 ELSE IF d \in DOMAIN DDims THEN ExpandDimPairs(DDims[d]) ELSE Single(d, One)
 ExpandDimPairs(ps) == IF ps = <<>> THEN Empty
                       ELSE Mul(Pow(ExpandDim1(ps[1][1]), ps[1][2]), ExpandDimPairs(Tail(ps)))
 RECURSIVE DimUnit(_), DimRefPairs(_)
